@@ -570,8 +570,11 @@ class HWorld:
         elif kind == "backward":
             # gradient inspection / an interrupted training step: leaves .grad populated on the parameters
             loss = h.compute_loss(self.derivs[op[1]], hedge=self.hedges[op[1]], n_paths=op[2])
-            loss.backward()
-            out = loss.detach()
+            try:
+                loss.backward()
+                out = loss.detach()
+            except RuntimeError as e:       # torch autograd called from the harness (e.g. a stale graph kept alive by the
+                out = Raised(f"RuntimeError: {str(e)[:120]}")     # hedger): an outcome to compare with the fresh world
         elif kind in ("eval", "train"):
             getattr(h, kind)()
             out = None
@@ -746,6 +749,15 @@ def operations(variant, tier="thorough"):
     for i in range(nd):
         ops.append(("chedge", i))
     return ops
+
+
+def raised_type(x):
+    """Exception type name if the result is (or contains) a Raised outcome, else None."""
+    if isinstance(x, Raised):
+        return str(x).split(":")[0]
+    if isinstance(x, dict):
+        return next((raised_type(v) for v in x.values() if raised_type(v)), None)
+    return None
 
 
 class Raised(str):
